@@ -8,6 +8,8 @@ COMMON_ASSUMPTIONS = [
     'every solver counterexample is replayed natively against the real code before it is reported',
 ]
 
+RUN_NOTE = ('driver level: the REAL text of CMDDriver::run() (a copy of src/driver/driver.rs in which only the `use` lines are redirected, lib/gen.py rewrite_uses) with the regex, '
+            'the assembler, the run-time parsers, get_err_pos, the interrupt services and VM::new() replaced by stubs (harness/drv.rs) that answer within the contract of the real component')
 PROPS = {
     'C01': {
         'extra_harnesses': r'^c04_memory_addr$|^c04_labels$',
@@ -135,7 +137,8 @@ PROPS['C19'] = {
 PROPS['C15'] = {
     'extra_harnesses': r'^c11n_\w+(11|9)$',
     'explanation': 'fragment: the hand-written position arithmetic that the parsers\' error paths call (LexerHelper::get_newline_before / get_bounds composed as get_err_pos) '
-                   'never aborts and yields slice bounds inside the text, for every sorted newline list (<= 4 newlines), text length and position',
+                   'never aborts and yields slice bounds inside the text, for every sorted newline list (<= 4 newlines), text length and position'
+                   + '; ' + RUN_NOTE + ': for a program that consists of the label start only (start maps to the appended hlt), both values of the interpreted switch and every start index, run() neither aborts nor prompts and executes exactly the appended hlt',
     'bounds': '<= 4 newlines (the code distinguishes none / first / middle / last), text length < 4096, unwind 6 with unwinding assertions',
     'outside': 'the generated LALRPOP parsers and the regex lexer (Kani cannot compile them), hence arbitrary byte sequences, time/memory proportionality, stack depth, non-UTF-8 files; LexerHelper::new (growing Vec over chars) is cut: the newline list is built directly',
     'backends': [(r'.*', ['sat', 'z3'])],
@@ -184,13 +187,15 @@ PROPS['C14'] = {
     'extra_harnesses': r'^c11n_(word|byte|sbyte|sword)_',
     'explanation': '(E1) every rejecting action of the assembler, from a symbolic table state: duplicate label / procedure, CALL of a non-procedure, jump to a data label, '
                    'OFFSET / byte / word operand on a code label or unknown name, INT other than 3/10h/21h, IN/OUT/LDS/LES/WAIT/ESC/LOCK/INTO/IRET, print range leaving 1 MiB: '
-                   'Err and no line pushed.  (E2) families of invalid token shapes have no derivation in the assembler grammar.',
+                   'Err and no line pushed.  (E2) families of invalid token shapes have no derivation in the assembler grammar.  (driver) ' + RUN_NOTE + ': an assembler error, a forward reference that is '
+                   'never defined (alone, or first / second of two), a missing start label and a start that is a data label each end run() with a message and without any call of the data loader, the interpreter, the prompt or the interrupt services.',
     'bounds': 'tables with one name (absent / DATA / CODE / procedure), out.code <= 3 lines; E2: one source line at a time',
-    'outside': 'undefined jump targets and the missing start label are checked inside CMDDriver::run (the assembler only records them: asserted); "no instruction is executed" is run()\'s control flow',
-    'backends': [(r'.*', ['sat', 'z3'])],
+    'outside': 'driver level: programs of one instruction, at most two forward references; the assembler is a stub there (what it records is the E1 obligation above)',
+    'backends': [(r'_run_', ['sat', 'z3']), (r'.*', ['sat', 'z3'])],
+    'timeout': {'quick': 1200, 'thorough': 3000},
     'assumptions': ['association-list tables under Kani', 'alloc::fmt::format stubbed'],
     'level_text': 'bounded model checking of each semantic check for every table state and operand value; grammar-level emptiness by SMT over the real grammar',
-    'level_note': 'partial claim: the two driver-level checks are outside',
+    'level_note': 'the two driver-level checks are decided on the real text of run() with a stubbed environment (one-instruction programs)',
 }
 PROPS['C18'] = {
     'explanation': 'interrupts::int_21 (AH=1, 2, 0Ah) and int_13 (INT 10h AH=0Ah, 13h) of the binary crate, with the console boundary replaced: print! -> ghost log of '
@@ -246,6 +251,10 @@ PROPS['C11'] = {
 }
 
 NOT_APPLICABLE = {
+    'C20': 'stepping, breakpoints and the prompt live inside CMDDriver::run()/user_interface().  This round compiled the REAL text of both under Kani (copies with only the imports and the '
+           'std::io / std::process calls redirected to stubs, harness/drv.rs, attic/ui_c20.rs) and wrote a reference run loop / prompt loop for them, but no back end decides the resulting queries: '
+           'a program of ONE instruction with ONE symbolic interpreter result does not finish in 7 min (cadical 7.5 GB, z3), the prompt loop on immediate end of input not in 400 s (std String / Vec code on '
+           'the heap; details in DESIGN.md section 6).  Only the shapes in which run() ends before or in its first iteration are decided; they are claimed under C14 and C15, not here',
+
     'C13': 'macro definition/use is regex::Regex + a recursive call of the generated parser on heap strings; Kani cannot compile the regex engine or the LALRPOP driver (compiler ICE), and a hand model of the substitution would not be the real code',
-    'C20': 'stepping, breakpoints and the prompt exist only inside CMDDriver::run()/user_interface() around stdin and the generated PrintParser; no unit smaller than the whole CLI process can be encoded',
 }
